@@ -250,8 +250,32 @@ def mutant_strings(ref, payload):
     yield 'checksum', B.b58encode(bp + payload + B.checksum(payload))
 
 
+ADDRESS_PREFIXES = ('tz1', 'tz2', 'tz3', 'tz4', 'KT1', 'sr1', 'txr1')
+
+
+def judge_forge_address(s, rv):
+    """forge_address / forge_contract decode typed base58 on their own path: a string the reference decoder rejects (bad
+    checksum, wrong length) must not be turned into bytes.  rv = reference verdict (('rej', why) = rejected)."""
+    if not s.startswith(ADDRESS_PREFIXES):
+        return None
+    from pytezos.michelson.forge import forge_address
+    try:
+        got = forge_address(s)
+    except Exception:
+        return []
+    if rv[0] == 'rej':
+        return [('forge_address accepts an address string the reference decoder rejects', f'{s!r} -> {got.hex()}')]
+    return []
+
+
 def run_string(r: Result, s, how, with_validators=True):
     (lab, vs), rv = judge_decode(s)
+    fa = judge_forge_address(s, rv)
+    if fa is not None:
+        r.ev()
+        r.out('forge_address|' + ('ok' if not fa else 'ACCEPTS INVALID'))
+        for d, detail in fa:
+            r.viol(d, {'k': 'string', 's': s}, f'[{how}] {detail}')
     r.ev()
     if how != 'valid':
         r.nt(s)
@@ -280,6 +304,7 @@ def shards(tier, seed):
     out += [('mut', i) for i in range(n)]
     # two-step histories in ONE process: kind A, then kind B, then A again, for every ordered pair of kinds
     out += [('seq', i) for i in range(n)]
+    out.append(('selfprefix',))
     # heaviest (longest strings) first
     rows = impl_rows()
     out.sort(key=lambda s: (0 if s[0] == 'mut' else 1, -rows[s[1]][1] if len(s) > 1 else 0))
@@ -346,6 +371,27 @@ def run_shard(spec, tier):
                         r.viol(d + ' [after another kind was encoded/decoded in the same process]', dict(last, seq=[i, j]), f'{tag} of ({a[0]}/{a[3]}, {b[0]}/{b[3]}): {detail}')
             if a[0] == b[0] and i != j:
                 r.nt(('seq', i, j))
+    elif spec[0] == 'selfprefix':
+        # payloads that CONTAIN the binary prefix of their own kind (at the start, in the middle, at the end, twice):
+        # the prefix is stripped by position, never by content
+        for i, row in enumerate(rows):
+            ref = ref_row_for(row[2]) or row
+            n, bp = ref[3], ref[2]
+            if len(bp) > n:
+                continue
+            for fill in (0x00, 0xFF, 0x11):
+                base = bytes([fill]) * n
+                cands = {bp + base[len(bp):], base[:n - len(bp)] + bp, base[:(n - len(bp)) // 2] + bp + base[(n - len(bp)) // 2 + len(bp):]}
+                if 2 * len(bp) <= n:
+                    cands.add(bp + base[len(bp):n - len(bp)] + bp)
+                for payload in sorted(cands):
+                    r.ev()
+                    r.nt(('selfprefix', i, payload))
+                    lab, vs = check_payload(row, payload)
+                    r.out(f'selfprefix|{lab}')
+                    last = {'k': 'payload', 'i': i, 'payload': payload}
+                    for d, detail in vs:
+                        r.viol(d + ' [payload contains the binary prefix of its kind]', last, detail)
     elif spec[0] == 'mut':
         _, i = spec
         row = rows[i]
